@@ -174,8 +174,9 @@ CHECKS["C20"] = dict(
     text="Per program, child interpreters compile it fresh, again, after every polluter sequence of length <= 2, and under controlled identity-hash layouts (__hash__ of nmfu's identity-hashed classes replaced by "
          "explorer-chosen permutations of creation order, restarting with every compilation). Every recompilation must give the same verdict; unless the emitted C is textually the same program, the two machines must be "
          "bisimilar without slack and both C programs must produce the same trace digests on every string <= 4. Across children (PYTHONHASHSEED values chosen so that both iteration orders of every pair of name-hashed enum "
-         "members occur; children that compile another program, or the same program under flipped options, first) verdict, behaviour table and C trace digests must be identical. Programs include name-shadowing macros and "
-         "sources with more than one grammatical reading.",
+         "members occur; children that compile another program, or the same program under flipped options, first) verdict, behaviour table and C trace digests must be identical. Programs include name-shadowing macros, "
+         "sources with more than one grammatical reading, byte classes with one collapsible run and several isolated members, and condition points whose first set is computed from a set of identity-hashed states; "
+         "the C-level digest also covers every string <= 2 over all 256 byte values, and a C run that does not complete is a reported difference.",
     design_ref="DESIGN.md sections 4 (C20) and 8.2",
     note="Trusted: AM; histories accumulate inside one child; identity-hash layouts and hash seeds are finite menus (stated); identical C text (comments aside) is taken as identical behaviour.")
 
